@@ -289,7 +289,11 @@ func writeReader(path string, r io.Reader, perms fs.FileMode, compress bool) (er
 	}
 
 	// when w is a compressor the file is not closed yet
-	out.Close()
+	if compress {
+		if err = out.Close(); err != nil {
+			return
+		}
+	}
 
 	return os.Rename(tmp, path)
 }
